@@ -14,6 +14,7 @@ import (
 	"encoding/json"
 	"fmt"
 	"os"
+	"runtime/debug"
 	"slices"
 
 	rhp2 "go.sia.tech/core/rhp/v2"
@@ -70,7 +71,7 @@ func (k *checker) fail(kind, detail string, before snap, a attempt, extra map[st
 }
 
 func sameSnap(a, b snap) (roots, rev, acct bool) {
-	return slices.Equal(a.roots, b.roots), bytes.Equal(a.revBytes, b.revBytes), a.acct == b.acct
+	return slices.Equal(a.roots, b.roots), bytes.Equal(a.revBytes, b.revBytes), a.acct == b.acct && a.acct2 == b.acct2
 }
 
 // expectation of the harness, from the property text and the protocol rules alone
@@ -136,6 +137,13 @@ func (k *checker) attempt(a attempt, toCoq bool, phase string) snap {
 	}
 	after := e.snapshot()
 	k.last = &after
+	if ob.panicked != "" {
+		k.fail("renter-call-panics", fmt.Sprintf("%s on roots %v against the honest host panicked on the renter side: %s", a, k.names(before.roots), ob.panicked), before, a, map[string]any{"roots_after": k.names(after.roots), "host_revision_advanced": after.rev.RevisionNumber != before.rev.RevisionNumber})
+	}
+	if a.Kind == kindAccount {
+		k.judgeAccount(a, before, after, ob, toCoq, phase)
+		return after
+	}
 	committed := after.rev.RevisionNumber != before.rev.RevisionNumber
 	extra := map[string]any{"roots_after": k.names(after.roots), "committed": committed, "renter_error": ob.clientErr}
 
@@ -253,6 +261,119 @@ func (k *checker) attempt(a attempt, toCoq bool, phase string) snap {
 	return after
 }
 
+// judgeAccount: an account-paid RPC changes nothing but the account balance, by exactly
+// its cost, and only when it is served.
+func (k *checker) judgeAccount(a attempt, before, after snap, ob observed, toCoq bool, phase string) {
+	e, res := k.e, k.c.Res
+	cost := e.accountCost(a)
+	extra := map[string]any{"served": ob.served, "renter_error": ob.clientErr, "balance_before": before.acct.ExactString(), "balance_after": after.acct.ExactString(), "cost_if_served": cost.ExactString()}
+	for _, p := range e.rec.takeProblems() {
+		k.fail(p.Kind, p.Detail+" during "+a.String(), before, a, extra)
+	}
+	if r, v, _ := sameSnap(before, after); !r || !v {
+		k.fail("account-rpc-changes-roots-or-revision", fmt.Sprintf("%s: roots same=%v revision same=%v", a, r, v), before, a, extra)
+	}
+	if after.acct2 != before.acct2 {
+		k.fail("account-rpc-changes-another-account", fmt.Sprintf("%s moved the unfunded account from %v to %v", a, before.acct2, after.acct2), before, a, extra)
+	}
+	wantServed := a.Variant == acctValid
+	switch {
+	case wantServed && !ob.served:
+		k.fail("valid-account-rpc-fails", fmt.Sprintf("%s should be served; the renter side saw %q", a, ob.clientErr), before, a, extra)
+	case !wantServed && ob.served:
+		k.fail("invalid-account-rpc-served", fmt.Sprintf("%s must be refused but was served", a), before, a, extra)
+	}
+	if !ob.served && after.acct != before.acct {
+		charged := "more"
+		if after.acct.Cmp(before.acct) < 0 {
+			charged = before.acct.Sub(after.acct).ExactString() + " H less"
+		}
+		k.fail("failed-account-rpc-changes-balance", fmt.Sprintf("%s failed on the renter side (%q) but the account balance went from %s H to %s H (%s)", a, ob.clientErr, before.acct.ExactString(), after.acct.ExactString(), charged), before, a, extra)
+	}
+	if ob.served {
+		if before.acct.Cmp(cost) < 0 || before.acct.Sub(cost) != after.acct {
+			k.fail("account-rpc-charges-wrong-amount", fmt.Sprintf("%s was served; cost %s H, balance %s H -> %s H", a, cost.ExactString(), before.acct.ExactString(), after.acct.ExactString()), before, a, extra)
+		}
+		if a.Op == "read" {
+			if want, ok := e.poolData[e.sectorRoot(a.Root)]; ok && a.Off+a.Len <= uint64(len(want)) && !bytes.Equal(ob.data, want[a.Off:a.Off+a.Len]) {
+				k.fail("listed-sector-has-wrong-data", fmt.Sprintf("%s returned different bytes than were uploaded", a), before, a, extra)
+			}
+		}
+	}
+	res.Count("kind:account")
+	res.Count("account:" + a.Op + "/" + acctVariantNames[a.Variant])
+	res.Count("phase:" + phase)
+	if ob.served {
+		res.Count("outcome:served")
+	} else {
+		res.Count("outcome:refused")
+	}
+	res.Eval(fmt.Sprint(k.names(before.roots), a), !wantServed)
+	if toCoq {
+		// valid: the request passes validation; has: the harness knows whether it uploaded the sector
+		valid := a.Variant == acctValid || a.Variant == acctUnknownRoot || a.Variant == acctUnfunded
+		has := a.Op == "write" || a.Root < unknownBase
+		bal, balAfter := before.acct, after.acct
+		if a.Variant == acctUnfunded {
+			bal, balAfter = before.acct2, after.acct2
+		}
+		ids := map[types.Hash256]uint64{}
+		xs := make([]uint64, len(before.roots))
+		for i, h := range before.roots {
+			if _, ok := ids[h]; !ok {
+				ids[h] = uint64(len(ids) + 1)
+			}
+			xs[i] = ids[h]
+		}
+		ys := make([]uint64, len(after.roots))
+		for i, h := range after.roots {
+			if _, ok := ids[h]; !ok {
+				ids[h] = uint64(len(ids) + 1)
+			}
+			ys[i] = ids[h]
+		}
+		k.cases = append(k.cases, fmt.Sprintf("mk_case 5 %s [%s; %s] [%s; %s] 0 %s %s [%s] 0", out.NList(xs), bal.ExactString(), cost.ExactString(), out.Bool(valid), out.Bool(has), out.Bool(ob.served), out.NList(ys), balAfter.ExactString()))
+	}
+}
+
+// accountAttempts enumerates the account-paid RPCs: every operation under every way of
+// failing before the service is delivered, and the served ones for comparison.
+func (k *checker) accountAttempts(r *rng.R, phase string) {
+	e := k.e
+	for _, op := range []string{"read", "verify", "write"} {
+		for v := acctValid; v <= acctTruncatedData; v++ {
+			if (v == acctUnknownRoot && op == "write") || (v == acctTruncatedData && op != "write") {
+				continue // a write names no root; only a write carries data
+			}
+			for rep := 0; rep < 4; rep++ {
+				a := attempt{Kind: kindAccount, Op: op, Variant: v, Root: r.Intn(len(e.pool)), Off: 0, Len: 64}
+				switch op {
+				case "read":
+					a.Off, a.Len = []uint64{0, 64, 0, 4096}[rep], []uint64{64, 128, 4096, 64}[rep]
+				case "verify":
+					a.Off = uint64(r.Intn(int(proto4.LeavesPerSector)))
+				case "write":
+					a.Len = []uint64{64, 128, 4096, 1 << 16}[rep]
+				}
+				switch v {
+				case acctUnknownRoot:
+					a.Root = unknownBase + rep
+				case acctBadRange:
+					switch op {
+					case "read":
+						a.Off, a.Len = []uint64{32, 0, proto4.SectorSize, proto4.SectorSize - 64}[rep], []uint64{64, 0, 64, 128}[rep]
+					case "verify":
+						a.Off = proto4.LeavesPerSector + uint64(rep)
+					case "write":
+						a.Len = []uint64{100, 0, 65, 32}[rep]
+					}
+				}
+				k.attempt(a, true, phase)
+			}
+		}
+	}
+}
+
 // coqCase renames roots to small numbers in order of first appearance.
 func (k *checker) coqCase(a attempt, before, after snap, committed bool, ob observed) string {
 	ids := map[types.Hash256]uint64{}
@@ -363,7 +484,10 @@ func (k *checker) readBack(tag string) {
 		}
 		seen[root] = true
 		var buf bytes.Buffer
-		_, err := rhp4.RPCReadSector(context.Background(), e.tc, e.prices, e.token(), &buf, root, 0, 64)
+		err := safely(func() error {
+			_, err := rhp4.RPCReadSector(context.Background(), e.tc, e.prices, e.token(), &buf, root, 0, 64)
+			return err
+		})
 		k.c.Res.Count("readback:sectors")
 		if err != nil {
 			k.fail("listed-sector-unreadable", fmt.Sprintf("%s: root at position %d of %v cannot be read back: %v", tag, i, k.names(after.roots), err), after, a, nil)
@@ -373,6 +497,16 @@ func (k *checker) readBack(tag string) {
 	}
 	e.quiesce()
 	k.last = nil // reads debit the account
+}
+
+// safely runs a call into the code under test; a panic becomes an error.
+func safely(f func() error) (err error) {
+	defer func() {
+		if r := recover(); r != nil {
+			err = fmt.Errorf("panic: %v", r)
+		}
+	}()
+	return f()
 }
 
 func seqInts(n int) []int {
@@ -402,6 +536,13 @@ func runC09(c *hx.Ctx) {
 	res := c.Res
 	maxSize := c.Scale(5, 6)
 	res.Rule = "one RPC attempt (free through the renter API, free on the raw wire, append, sector-roots listing; complete or stopped at a message boundary / with an invalid renter signature) against the real rhp4.Server + EphemeralContractor + EphemeralSectorStore from a known stored root list; exhaustive over contract sizes 0..N and all index lists of length <= size, plus random append/free/list sequences up to 64 sectors; non-trivial := the contract holds >= 2 roots before or after and the attempt names at least one index, sector or range; distinct by (stored roots, attempt)"
+	// nothing the code under test does may kill the harness: a panic during setup or in a
+	// helper is reported as a monitor failure
+	defer func() {
+		if r := recover(); r != nil {
+			res.Fail("host-renter-setup-or-helper-panics", fmt.Sprintf("%v\n%s", r, debug.Stack()), map[string]any{"panic": fmt.Sprint(r)})
+		}
+	}()
 	e := newEnv(c.R.Fork(), 8)
 	defer e.close()
 	k := &checker{c: c, e: e}
@@ -552,6 +693,11 @@ func runC09(c *hx.Ctx) {
 			}
 		}
 	}
+	// (5b) the account-paid RPCs, on an empty and on a populated contract
+	k.ensure(nil)
+	k.accountAttempts(r, "account")
+	k.ensure(seqInts(3))
+	k.accountAttempts(r, "account")
 	k.readBack("after the exhaustive phases")
 	res.Exhaustive = true
 	res.Explored = map[string]any{"max_contract_size_client_free": maxSize, "max_contract_size_raw_any_order": rawSize, "pool_sectors": len(e.pool)}
@@ -567,6 +713,9 @@ func runC09(c *hx.Ctx) {
 		for i := 0; i < steps; i++ {
 			st := e.snapshot()
 			a := randomAttempt(sr, len(st.roots), len(e.pool), target)
+			if sr.Intn(8) == 0 {
+				a = randomAccountAttempt(sr, len(e.pool))
+			}
 			trace = append(trace, a.String())
 			k.attempt(a, len(k.cases) < coqBudget, "random")
 		}
@@ -648,6 +797,27 @@ func randomAttempt(r *rng.R, size, pool, target int) attempt {
 	return a
 }
 
+func randomAccountAttempt(r *rng.R, pool int) attempt {
+	a := attempt{Kind: kindAccount, Op: []string{"read", "read", "verify", "write"}[r.Intn(4)], Root: r.Intn(pool), Len: 64 * uint64(1+r.Intn(8))}
+	a.Variant = []int{acctValid, acctValid, acctUnknownRoot, acctUnknownRoot, acctBadRange, acctExpiredToken, acctForgedToken, acctWrongHostToken, acctUnfunded}[r.Intn(9)]
+	if a.Op == "verify" {
+		a.Off, a.Len = uint64(r.Intn(int(proto4.LeavesPerSector))), 64
+	} else if a.Op == "read" {
+		a.Off = 64 * uint64(r.Intn(16))
+	}
+	switch {
+	case a.Variant == acctUnknownRoot && a.Op == "write":
+		a.Variant = acctTruncatedData
+	case a.Variant == acctUnknownRoot:
+		a.Root = unknownBase + r.Intn(4)
+	case a.Variant == acctBadRange && a.Op == "verify":
+		a.Off = proto4.LeavesPerSector + uint64(r.Intn(5))
+	case a.Variant == acctBadRange:
+		a.Len += 1 + uint64(r.Intn(63))
+	}
+	return a
+}
+
 type corpusCase struct {
 	base []int
 	a    attempt
@@ -663,5 +833,9 @@ func c09Corpus() []corpusCase {
 		// the raw wire in ascending order keeps the wrong root (documented, consistent)
 		{[]int{0, 1, 2}, attempt{Kind: kindFreeRaw, Idx: []uint64{0, 2}}},
 		{[]int{0, 1}, attempt{Kind: kindAppend, Sectors: []int{2, unknownBase, 2}, Script: scriptCloseAfterResp}},
+		// a read of a sector the host does not store must not be charged
+		{[]int{0, 1}, attempt{Kind: kindAccount, Op: "read", Variant: acctUnknownRoot, Root: unknownBase, Len: 64}},
+		// a listing that does not start at 0 (the renter-side proof check once panicked)
+		{[]int{0, 1, 2, 3}, attempt{Kind: kindRoots, Off: 1, Len: 2}},
 	}
 }
